@@ -21,11 +21,11 @@ CHECKS = {
         "assumptions": [],
         "deadline": {"quick": 300, "thorough": 1800},
         "stages": [
-            {"name": "solvers", "harness": "c18_shared", "args": ["--stage", "solvers"], "share": 0.2,
+            {"name": "solvers", "timing_dependent": True, "harness": "c18_shared", "args": ["--stage", "solvers"], "share": 0.2,
              "what": "one shared solver instance, K threads minimising their own functions: bit-identical to solo"},
-            {"name": "objects", "harness": "c18_shared", "args": ["--stage", "objects"], "share": 0.2,
+            {"name": "objects", "timing_dependent": True, "harness": "c18_shared", "args": ["--stage", "objects"], "share": 0.2,
              "what": "shared loss / dataset / fitted model through the const interface"},
-            {"name": "fit", "harness": "c18_shared", "args": ["--stage", "fit"], "share": 0.2,
+            {"name": "fit", "timing_dependent": True, "harness": "c18_shared", "args": ["--stage", "fit"], "share": 0.2,
              "what": "linear x4 and gboost fits with dataset/internal pools of 1, 2, 16 threads: same features, predictions 1e-5"},
             {"name": "solvers-tsan", "harness": "c18_shared", "variant": "tsan", "args": ["--stage", "solvers", "--small", "1"],
              "share": 0.15, "crash_is_violation": True, "what": "race oracle for the shared-solver bodies"},
@@ -33,10 +33,10 @@ CHECKS = {
              "share": 0.1, "crash_is_violation": True, "what": "race oracle for shared loss / dataset / model"},
             {"name": "fit-tsan", "harness": "c18_shared", "variant": "tsan", "args": ["--stage", "fit", "--small", "1"],
              "share": 0.15, "crash_is_violation": True, "what": "race oracle for tuning + fitting with 2 and 16 threads"},
-            {"name": "fit-sched", "harness": "c18_fit_sched", "args_quick": ["--budget", "1"], "args_thorough": ["--budget", "2", "--horizon", "150"],
+            {"name": "fit-sched", "harness": "c18_fit_sched", "args_quick": ["--budget", "1", "--samples", "16"], "args_thorough": ["--budget", "1", "--samples", "24"],
              "share": 0.3, "crash_is_violation": True,
              "what": "whole fits (ridge, gboost) with 2-worker pools under the scheduler: every schedule of the whole fit with at most 1 "
-                     "non-default scheduling choice (quick); at most 2 within the first 150 decisions (thorough)"},
+                     "non-default scheduling choice, on a 16-sample (quick) / 24-sample (thorough) dataset"},
         ],
     },
 }
